@@ -10,7 +10,7 @@ from vlib.runner import Violation, sut
 from vlib.spec import build, spec_scope
 
 ID = "C11"
-BUDGET = {"quick": 1600, "thorough": 16000}
+BUDGET = {"quick": 1600, "thorough": 48000}
 RULE = ("Generated: smooth&decomposable DAGs whose inputs implement integrate() (categorical probs and logits, "
         "binomial probs/logits, Gaussian with/without log-partition), constants, Hadamard/Kronecker, n-ary sums, "
         "1..3 outputs, renumbered variables x semiring x fold x optimize x batch class (1, 2, 3, 5, a fold count); "
